@@ -1,3 +1,178 @@
-/-! Model for property C11 (core Lean only; no Mathlib). -/
+/-! Model for property C11 (core Lean only; no Mathlib): the index logic of tensor QR / SVD,
+`pytreenet/util/tensor_util.py:12-81` and `pytreenet/util/tensor_splitting.py:57-181, 390-470`.
+
+A tensor is represented by its shape (`List Nat`); an axis of a result additionally carries a label
+saying where it comes from (`Leg.orig a` = axis `a` of the input, `Leg.bond` = the new bond), so
+that "kept legs in the given order, bond last / first" is a statement about labels, not only
+about dimensions.  `none` = NumPy / the library raises.
+
+* `transposeByLegList` ↔ `transpose_tensor_by_leg_list` (assert + `np.transpose`)
+* `matricize`          ↔ `tensor_matricization` (transpose, `math.prod` of the two groups, `np.reshape`)
+* `determineTensorShape` ↔ `_determine_tensor_shape`
+* `tensorQR`           ↔ `tensor_qr_decomposition` (NumPy `reduced` / `complete`, zero padding in KEEP)
+* `tensorSVD`          ↔ `tensor_svd` (`full_matrices = mode is not REDUCED`: KEEP behaves as FULL)
+* `truncatedSVD`       ↔ `truncated_tensor_svd` (REDUCED SVD, then the bond is cut to the kept length)
+* `absorb`             ↔ the contraction modes of `contr_truncated_svd_splitting`
+
+Leg tuples: with tuples (the documented type) `q_legs + r_legs == list(range(..))` is always False, so
+the tensor is always transposed; with two lists in natural order the transposition is skipped — it
+would be the identity permutation, so the model does not distinguish the two.
+-/
 namespace Ptn.C11
+
+inductive Mode where
+  | reduced
+  | full
+  | keep
+deriving Repr, DecidableEq
+
+/-- `math.prod` (empty product = 1). -/
+def prod : List Nat → Nat
+  | [] => 1
+  | x :: xs => x * prod xs
+
+/-- Where an axis of a factor comes from. -/
+inductive Leg where
+  | orig (axis : Nat)
+  | bond
+deriving Repr, DecidableEq
+
+/-- `old_shape[i] for i in legs` (IndexError ↦ `none`). -/
+def dimsOf (sh : List Nat) : List Nat → Option (List Nat)
+  | [] => some []
+  | a :: rest =>
+    match sh[a]?, dimsOf sh rest with
+    | some d, some ds => some (d :: ds)
+    | _, _ => none
+
+/-- `transpose_tensor_by_leg_list`: the assertion on the number of legs, then `np.transpose`, which
+    rejects a repeated or out-of-range axis.  Returns the shape of the transposed tensor. -/
+def transposeByLegList (sh first last : List Nat) : Option (List Nat) :=
+  if sh.length ≠ first.length + last.length then none
+  else
+    let axes := first ++ last
+    if ¬ axes.Nodup then none else dimsOf sh axes
+
+/-- The result of `tensor_matricization`: shape after transposition, rows, columns. -/
+structure Matricized where
+  shapeT : List Nat
+  rows : Nat
+  cols : Nat
+deriving Repr, DecidableEq
+
+/-- `tensor_matricization`: `np.reshape` to `(rows, cols)` is legal iff `rows * cols` is the size. -/
+def matricize (sh out inn : List Nat) : Option Matricized :=
+  match transposeByLegList sh out inn with
+  | none => none
+  | some t =>
+    let rows := prod (t.take out.length)
+    let cols := prod (t.drop out.length)
+    if rows * cols ≠ prod sh then none else some ⟨t, rows, cols⟩
+
+/-- `_determine_tensor_shape(old_shape, matrix, legs, output)` for a matrix of shape
+    `(matRows, matCols)`. -/
+def determineTensorShape (old : List Nat) (matRows matCols : Nat) (legs : List Nat)
+    (output : Bool) : Option (List Nat) :=
+  match dimsOf old legs with
+  | none => none
+  | some legShape => if output then some (legShape ++ [matCols]) else some (matRows :: legShape)
+
+/-- Inner dimension NumPy's factorisation returns: `reduced` gives `min m n`, `complete` gives `m`. -/
+def numpyQRInner (mode : Mode) (m n : Nat) : Nat :=
+  match mode with
+  | .full => m
+  | _ => min m n
+
+/-- A factor: its shape and the origin of each axis. -/
+structure Factor where
+  shape : List Nat
+  legs : List Leg
+deriving Repr, DecidableEq
+
+structure QRResult where
+  q : Factor
+  r : Factor
+  bond : Nat          -- dimension of the new leg as returned
+  pad : Nat           -- number of zero columns / rows added (KEEP only)
+deriving Repr, DecidableEq
+
+/-- `np.reshape(mat, shape)` of a `(a, b)` matrix: legal iff the sizes agree. -/
+def reshapeOk (a b : Nat) (shape : List Nat) : Bool := prod shape == a * b
+
+/-- `tensor_qr_decomposition`. -/
+def tensorQR (mode : Mode) (sh qLegs rLegs : List Nat) : Option QRResult :=
+  match matricize sh qLegs rLegs with
+  | none => none
+  | some mat =>
+    let m := mat.rows
+    let n := mat.cols
+    let k := numpyQRInner mode m n                    -- q : (m, k), r : (k, n)
+    match determineTensorShape sh m k qLegs true, determineTensorShape sh k n rLegs false with
+    | some qShape, some rShape =>
+      if ¬ (reshapeOk m k qShape && reshapeOk k n rShape) then none
+      else
+        let qL := qLegs.map Leg.orig ++ [Leg.bond]
+        let rL := Leg.bond :: rLegs.map Leg.orig
+        match mode with
+        | .keep =>
+          -- orig_bond_dim = np.prod(r.shape[1:]) is the *float* 1.0 for an empty tuple, and np.pad
+          -- rejects a float pad width (TypeError): KEEP needs at least one R-leg
+          if rLegs.isEmpty then none
+          else
+            let origBond := prod (rShape.drop 1)
+            -- diff = orig_bond_dim - q.shape[-1]; np.pad rejects a negative width (ValueError)
+            if origBond < k then none
+            else
+              let diff := origBond - k
+              some ⟨⟨qShape.dropLast ++ [k + diff], qL⟩, ⟨(k + diff) :: rShape.drop 1, rL⟩,
+                    k + diff, diff⟩
+        | _ => some ⟨⟨qShape, qL⟩, ⟨rShape, rL⟩, k, 0⟩
+    | _, _ => none
+
+structure SVDResult where
+  u : Factor
+  sLen : Nat
+  vh : Factor
+deriving Repr, DecidableEq
+
+/-- `tensor_svd`: `np.linalg.svd(matrix, full_matrices = mode is not REDUCED)`. -/
+def tensorSVD (mode : Mode) (sh uLegs vLegs : List Nat) : Option SVDResult :=
+  match matricize sh uLegs vLegs with
+  | none => none
+  | some mat =>
+    let m := mat.rows
+    let n := mat.cols
+    let k := min m n
+    let full := mode != .reduced
+    let uCols := if full then m else k                -- u : (m, uCols), vh : (vRows, n)
+    let vRows := if full then n else k
+    match determineTensorShape sh m uCols uLegs true, determineTensorShape sh vRows n vLegs false with
+    | some uShape, some vShape =>
+      if ¬ (reshapeOk m uCols uShape && reshapeOk vRows n vShape) then none
+      else some ⟨⟨uShape, uLegs.map Leg.orig ++ [Leg.bond]⟩, k,
+                 ⟨vShape, Leg.bond :: vLegs.map Leg.orig⟩⟩
+    | _, _ => none
+
+/-- `truncated_tensor_svd` when the truncation keeps `kept` singular values
+    (`1 ≤ kept ≤ min m n` by property C10): `u[..., :kept]`, `vh[:kept, ...]`. -/
+def truncatedSVD (sh uLegs vLegs : List Nat) (kept : Nat) : Option SVDResult :=
+  match tensorSVD .reduced sh uLegs vLegs with
+  | none => none
+  | some res =>
+    let k := min kept res.sLen                        -- slicing never extends
+    some ⟨⟨res.u.shape.dropLast ++ [k], res.u.legs⟩, k, ⟨k :: res.vh.shape.drop 1, res.vh.legs⟩⟩
+
+inductive ContrMode where
+  | ucontr
+  | vcontr
+  | equal
+deriving Repr, DecidableEq
+
+/-- Which factor absorbs the singular values, as exponents of `S` in halves:
+    `(a, b)` means first factor `= U·S^(a/2)`, second `= S^(b/2)·Vh`. -/
+def absorb : ContrMode → Nat × Nat
+  | .vcontr => (0, 2)
+  | .ucontr => (2, 0)
+  | .equal => (1, 1)
+
 end Ptn.C11
